@@ -22,7 +22,7 @@ HEADLINE = ['apply_calls', 'apply_const', 'apply_reach', 'apply_startprop', 'app
 def floors(tier):
     return {'apply_calls': 20000, 'apply_const': 3000, 'apply_reach': 3000, 'apply_startprop': 3000, 'apply_startlim': 3000, 'zone_open': 5000, 'zone_closed': 5000,
             'simulations': 200, 'sim_proposals_checked': 5000, 'limit_current_instants': 300, 'negative_load_cases': 500, 'wheel_master_cases': 30,
-            'boundary_states': 2000, 'exact_edge_states': 300, 'set:nontrivial': 60}
+            'boundary_states': 2000, 'exact_edge_states': 300, 'simulations_after_reset_with_the_same_rules': 40, 'set:nontrivial': 60}
 
 
 def n_cases(tier):
@@ -287,6 +287,11 @@ def simulate(ctx, i, rng, case):
     else:
         rules = [make_rule(rng, spec, kind, sim=True)]
     spec['rules'] = rules
+    rerun = (i // 2) % 3 == 1
+    if rerun:
+        # rules are long-lived objects: the same ones are used for a second simulation after reset
+        run0 = spec['schedule'][0]
+        spec['schedule'] = [run0, {'op': 'reset'}, {'op': 'reapply'}, dict(run0)]
     try:
         b = B.build(spec)
     except Exception as ex:
@@ -294,6 +299,9 @@ def simulate(ctx, i, rng, case):
         return
     runs = B.run_schedule(b)
     tr = B.extract(b, raw=True)
+    if rerun and getattr(b, 'rule_log_mark', None) is not None:
+        ctx.count('simulations_after_reset_with_the_same_rules')
+        b.rule_log = b.rule_log[b.rule_log_mark:]
     ctx.count('simulations')
     nums = GEN.chain_numbers(spec)
     if any(e['rel']['type'] == 'worm' and e['type'] == 'wormgear' for e in spec['chain']):
